@@ -22,6 +22,7 @@ type State struct {
 	client       *http.Client
 	devUser      string
 	urlPrefix    string
+	logPrefix    string
 	changes      []change
 	errUnmanaged []error
 }
@@ -44,7 +45,7 @@ func (s *State) LoadDevice(
 			if err != nil {
 				return err
 			}
-			s.urlPrefix = fmt.Sprintf("%s/api/?key=%s&", addr, key)
+			s.setAPIKey(addr, key)
 			if !s.checkHA(logLogin) {
 				return fmt.Errorf("not in active state: %s (%s)", ip, name)
 			}
@@ -263,13 +264,16 @@ func (s *State) ApplyCommands(logFH *os.File) error {
 	return nil
 }
 
-var apiRE = regexp.MustCompile(`[?]key=.*?&`)
+// Prefix of all request URLs; logPrefix is used for logging
+// and has the API key masked, whatever characters the key contains.
+func (s *State) setAPIKey(addr, key string) {
+	s.urlPrefix = fmt.Sprintf("%s/api/?key=%s&", addr, key)
+	s.logPrefix = fmt.Sprintf("%s/api/?key=xxx&", addr)
+}
 
 func (s *State) httpPrefixGetLog(uri string, logFH *os.File) ([]byte, error) {
-	uri = s.urlPrefix + uri
-	loggedURI := apiRE.ReplaceAllString(uri, "?key=xxx&")
-	errlog.DoLog(logFH, loggedURI)
-	body, err := s.httpGet(uri)
+	errlog.DoLog(logFH, s.logPrefix+uri)
+	body, err := s.httpGet(s.urlPrefix + uri)
 	errlog.DoLog(logFH, string(body))
 	return body, err
 }
